@@ -72,6 +72,7 @@ type Ctx struct {
 	errDropKey         map[ssa.Instruction]string
 	errHandleKey       map[ssa.Instruction]string
 
+	live      map[*ssa.Function]bool // functions some command can reach
 	borrowFns map[*ssa.Function]int // repository functions that return a slice of a reader passed in (parameter index)
 }
 
